@@ -133,8 +133,9 @@ class JobResult:
 
 
 class Job:
-    def __init__(self, cfg, argv, timeout=1800, env_extra=None, label=None):
+    def __init__(self, cfg, argv, timeout=1800, env_extra=None, label=None, variant=""):
         self.cfg = cfg
+        self.variant = variant  # e.g. "tree-borrows": same build, other tool flags; shown in evidence
         self.argv = list(argv)
         self.timeout = timeout
         self.env_extra = env_extra or {}
